@@ -554,6 +554,15 @@ class MarketRun:
                     self.fail("C08", "vwap_nan", f"vwap {got!r} without any volume")
             elif not math.isclose(got, want, rel_tol=1e-9):
                 self.fail("C08", "vwap", f"vwap {got!r} expected {want!r}")
+            # VWAP asked for PAST steps: turnover and volume up to and including that step
+            for tq in {0, t // 2, max(t - 1, 0)}:
+                V = sum(M.vol[: tq + 1])
+                gq = m.get_vwap(tq)
+                if V == 0:
+                    if not math.isnan(gq):
+                        self.fail("C08", "vwap_nan", f"get_vwap({tq}) = {gq!r} without any volume up to that step")
+                elif not math.isclose(gq, sum(M.tot[: tq + 1]) / V, rel_tol=1e-9):
+                    self.fail("C08", "vwap_past", f"at time {t}: get_vwap({tq}) = {gq!r}, fills up to step {tq} imply {sum(M.tot[: tq + 1]) / V!r}")
             if m.is_running != M.running:
                 self.fail("C08", "is_running", "")
 
@@ -631,7 +640,7 @@ P0S = [100.0, 300.0, 10.5, 1000.0, 7.25, 50.0]
 @st.composite
 def market_cases(draw, max_ops: int = 60, market_frac: int = 2, illegal: bool = False, few_levels: bool = False,
                  batch_bias: bool = False, toggles: bool = True, max_volume: int = 10000, match_weight: int = 2,
-                 pre_ticks: bool = False, deep: bool = False):
+                 pre_ticks: bool = False, deep: bool = False, nonpositive: bool = False):
     tick = draw(st.one_of(st.sampled_from(TICKS), st.floats(min_value=1e-3, max_value=20.0, allow_nan=False).filter(lambda x: x > 0)))
     p0 = draw(st.one_of(st.sampled_from(P0S), st.floats(min_value=5.0, max_value=5000.0, allow_nan=False)))
     if p0 < 8 * tick:
@@ -644,7 +653,19 @@ def market_cases(draw, max_ops: int = 60, market_frac: int = 2, illegal: bool = 
     offgrid = st.floats(min_value=-width, max_value=width, allow_nan=False).map(lambda x: base + x * tick)
     price = st.one_of(grid, grid, grid, offgrid) if few_levels else st.one_of(grid, grid, offgrid)
     price = price.filter(lambda p: p > 0)
-    if not deep and draw(st.integers(0, 5)) == 0:
+    if not deep and draw(st.integers(0, 9)) == 0:
+        # a price/tick ratio of a few 1e9 (e.g. tick 1e-5 at a price of 30000, or tick 1 at 3e9): neighbouring levels differ
+        # by less than 1e-9 relative
+        tick = draw(st.sampled_from([1.0, 1e-5, 0.5]))
+        p0 = tick * draw(st.sampled_from([3e9, 5e9, 2.0 ** 32]))
+        base = p0
+        price = st.integers(min_value=-4, max_value=4).map(lambda k: base + k * tick)
+    elif nonpositive:
+        # limit prices around zero: pams accepts zero and negative prices (with a warning)
+        p0 = 4 * tick
+        base = 0.0
+        price = st.integers(min_value=-5, max_value=5).map(lambda k: k * tick)
+    elif not deep and draw(st.integers(0, 5)) == 0:
         # a penny-stock history: the reference price is a few ticks, some limits lie below one tick
         p0 = 3 * tick
         base = 3 * tick
